@@ -65,6 +65,7 @@ class MemStream(trio.abc.HalfCloseableStream):
         self.write_fail_at: Optional[int] = None
         self.eof_sent = False
         self.paused = False
+        self.pause_at: Optional[int] = None  # the peer stops reading once this many writes have reached it
         self._resume = trio.Event()
 
     # -- stream API
@@ -96,6 +97,9 @@ class MemStream(trio.abc.HalfCloseableStream):
             self.peer_reset_flag = True
             self._wake.set()
             raise trio.BrokenResourceError("injected write failure")
+        if self.pause_at is not None and len(self.writes) >= self.pause_at:
+            self.pause_at = None
+            self.paused = True
         while self.paused:
             self._resume = trio.Event()
             await self._resume.wait()
@@ -229,6 +233,8 @@ def run_trio_session(app_factory: Callable, config: Optional[Config], actions: L
                         stream.peer_reset()
                     elif kind == "write_fail_at":
                         stream.write_fail_at = act[1]
+                    elif kind == "pause_at_write":
+                        stream.pause_at = act[1]
                     elif kind == "pause":
                         stream.paused = True
                     elif kind == "resume":
